@@ -186,9 +186,66 @@ def chain_classify(clause, draws, obs):
     return None
 
 
+
+# ------------------------------------------------------------------ multi-leader replication
+def multi_leader(sym, tier):
+    """Two LeaderNodes (last-writer-wins, no anti-entropy) over a real Network whose per-message delay is 1 ms
+    or 4 ms (solver-chosen), stores with a 2 ms write latency: 2-3 writes to one key at symbolic instants at
+    either leader, so that a replicated write can arrive while a local write to the same key is still
+    being applied.  Once everything has been delivered both leaders hold the same value, it is one of
+    the written values, each store agrees with its node's version table, and a write that causally
+    follows another one wins over it."""
+    from happysimulator.components.replication.multi_leader import LeaderNode
+    r = Result()
+    net = Network(name="net")
+    stores = [KVStore(f"s{i}", read_latency=0.0001, write_latency=0.002) for i in range(2)]
+    nodes = [LeaderNode(f"L{i}", stores[i], net) for i in range(2)]
+    nodes[0].add_peers([nodes[1]])
+    nodes[1].add_peers([nodes[0]])
+    net.add_link(nodes[0], nodes[1], NetworkLink(name="0-1", latency=SymLatency(sym, "l01", 3)))
+    net.add_link(nodes[1], nodes[0], NetworkLink(name="1-0", latency=SymLatency(sym, "l10", 3)))
+    nw = 2 if tier == "quick" else 3
+    plan = []
+    t = 0
+    for i in range(nw):
+        t = t + sym.choice(f"gap{i}", 4)            # 0..3 ms after the previous write
+        plan.append((t, sym.choice(f"at{i}", 2), 10 + i))
+    idle = Client("idle")
+    sim = Simulation(entities=[net, idle] + stores + nodes)
+    mon = Monitor(sim, cap=80)
+    evs = [_write(tm * 1_000_000, nodes[w], "k", v, None) for (tm, w, v) in plan]
+    evs.append(mk_event((t + 60) * 1_000_000, "keepalive", idle))
+    sim.schedule(evs)
+    try:
+        sim.run()
+    except SpinDetected:
+        pass
+    mon.judge(r, "multi_leader")
+    vals = [stores[i].get_sync("k") for i in range(2)]
+    vers = [nodes[i].versions.get("k").value if nodes[i].versions.get("k") is not None else None for i in range(2)]
+    written = [v for (_tm, _w, v) in plan]
+    if vals[0] != vals[1]:
+        r.bad("replicas_converge", {"stores": vals, "plan_ms_node_value": plan, "versions": vers})
+    if any(v not in written for v in vals):
+        r.bad("converged_value_was_written", {"stores": vals, "written": written})
+    for i in range(2):
+        if vals[i] != vers[i]:
+            r.bad("store_agrees_with_version_table", {"node": i, "store": vals[i], "version": vers[i], "plan_ms_node_value": plan})
+    # a write issued at a node at least 10 ms after every earlier write has seen them all: it must win
+    last = plan[-1]
+    if all(last[0] - p_[0] >= 10 for p_ in plan[:-1]) and vals[0] == vals[1] and vals[0] != last[2]:
+        r.bad("causally_later_write_wins", {"stores": vals, "plan_ms_node_value": plan})
+    if len({w for (_tm, w, _v) in plan}) == 2:
+        r.wit.add("writes_at_both_leaders")
+    if any(abs(a[0] - b[0]) <= 2 and a[1] != b[1] for a in plan for b in plan if a is not b):
+        r.wit.add("replica_write_arrives_during_a_local_write")
+    r.obs = {"stores": vals, "plan": plan}
+    return r
+
+
 MANIFEST = {
     "note": "Per-message network delays are solver-chosen from {1 ms, 4 ms} for the replication messages (later messages 1 ms), so messages for one "
-            "key can overtake each other. Multi-leader replication / conflict resolver / replicated_store are not covered by this check.",
+            "key can overtake each other. replicated_store is not covered by this check.",
 }
 
 HARNESSES = [
@@ -203,5 +260,11 @@ HARNESSES = [
       require=lambda tier: ["read_saw_a_write"], classify=chain_classify,
       functions=["ChainNode._handle_write/_handle_propagate/_handle_write_ack/_handle_read/_handle_commit_notify/_build_commit_notifications", "build_chain"],
       bounds=lambda tier: {"chain": "3 nodes, CRAQ", "writes": "2 to one key", "read": "one, at head/middle/tail, symbolic instant in [0, 12 ms]", "propagate delays": DELAYS_S},
-      outside=["chains without CRAQ read at non-tail nodes (served locally by design)", "multi-leader replication, conflict resolver, replicated_store"]),
+      outside=["chains without CRAQ read at non-tail nodes (served locally by design)", "replicated_store"]),
+    H(name="c17_multi_leader", fn=multi_leader, shape="S", budget=lambda tier: 900.0 if tier == "quick" else 3000.0,
+      cubes=lambda tier: [{"at0": a, "at1": b, "gap1": g} for a in range(2) for b in range(2) for g in range(4)],
+      require=lambda tier: ["writes_at_both_leaders", "replica_write_arrives_during_a_local_write"], classify=chain_classify,
+      functions=["LeaderNode._handle_write/_handle_replicate", "LastWriterWins.resolve", "VectorClock.send/receive", "KVStore.put", "Network.send"],
+      bounds=lambda tier: {"leaders": 2, "writes": "2 (thorough 3) to one key, 0-3 ms apart, at either leader", "message delays": DELAYS_S, "store write latency": "2 ms", "anti-entropy": "off"},
+      outside=["anti-entropy repair", "custom conflict resolvers", "more than 2 leaders"]),
 ]
